@@ -1,6 +1,15 @@
-From Coq Require Import ExtrOcamlBasic NArith List String.
-From LV Require Import lib.Conv model.LockDiscipline gen.LockTable.
+From Coq Require Import ExtrOcamlBasic NArith ZArith List String.
+From LV Require Import lib.Conv model.LockDiscipline gen.LockTable model.Wlru model.Semaphore.
 (* evaluated inside Coq: names as character codes, [method_ok] already computed per row *)
 Definition lock_table_x : list (list N * list N * bool * bool) :=
   Eval vm_compute in map row_summary lock_table.
-Extraction "model.ml" conv_roots lock_table_x.
+(* sequential models of other properties, used by the driver's linearizability search:
+   C29's weighted LRU (keys and values are numbers here) and C30's semaphore arithmetic *)
+Definition lru_new : N -> Z -> option (Wlru.cache N N) := @Wlru.new N N.
+Definition lru_step : Wlru.cache N N -> Wlru.op N N -> Wlru.cache N N * Wlru.res N N * list (N * N) :=
+  @Wlru.step N N N.eqb.
+Definition lru_weight : Wlru.cache N N -> N := @Wlru.weight N N.
+Definition lru_len : Wlru.cache N N -> N := @Wlru.len N N.
+Definition sem_try : metric -> metric -> metric -> option metric := try_acquire true.
+Definition sem_release (h c w : metric) : metric := held (fst (release (mkS h c nil nil) w)).
+Extraction "model.ml" conv_roots lock_table_x lru_new lru_step lru_weight lru_len sem_try sem_release mkM mnum msize.
